@@ -152,6 +152,15 @@ impl Number {
             if exp < 0 && (self.value == Numeric::zero() || self.value == Numeric::Float(0.0)) {
                 return Err("Division by zero".to_string());
             }
+            // Keep unit exponents small enough that no later exponent
+            // arithmetic (sums, negation) can overflow.
+            if self.unit.iter().any(|(_, &power)| {
+                power
+                    .checked_mul(exp as i64)
+                    .map_or(true, |power| power.abs() > i32::MAX as i64)
+            }) {
+                return Err("Exponent is too large".to_string());
+            }
             Ok(self.powi(exp))
         } else if num == one {
             let exp = den
